@@ -67,7 +67,7 @@ def dict_key_sites(fn: Func, dname: str) -> List[Tuple[ast.AST, ast.AST]]:
     return out
 
 
-LATER_RULES = " Later rules: (R18.7) module is absolute only at level 0; (R18.8) __import__('a.b') returns a; (R18.9) import a.b is used whenever a is; (R18.10) = C05 R5.5 for the tracing module; (R18.11) duplicates = same module, name and statement list; (R18.12) imports under try are never moved; (R18.15) a star import is removed as unused only when its export list can be determined, by a predicate that gives up wherever trace_origin does; (R18.16) import statements are reordered only after a test on the names they bind (known finding); (R18.17) imports inserted at module level replace module-level imports only. (R18.18) one key form for all tests against the standard-library table in a function. (R18.20) the definitions subtracted from the names a star import may provide are those of module scope (known finding). (R18.19) trace_origin answers an origin only after a census of the module-level stores of the name (binder kinds it does not read)."
+LATER_RULES = " Later rules: (R18.7) module is absolute only at level 0; (R18.8) __import__('a.b') returns a; (R18.9) import a.b is used whenever a is; (R18.10) = C05 R5.5 for the tracing module; (R18.11) duplicates = same module, name and statement list; (R18.12) imports under try are never moved; (R18.15) a star import is removed as unused only when its export list can be determined, by a predicate that gives up wherever trace_origin does; (R18.16) import statements are reordered only after a test on the names they bind (known finding); (R18.17) imports inserted at module level replace module-level imports only. (R18.18) one key form for all tests against the standard-library table in a function. (R18.21) a tuple or f-string that identifies an import by its module also carries its level; (R18.20) the definitions subtracted from the names a star import may provide are those of module scope (known finding). (R18.19) trace_origin answers an origin only after a census of the module-level stores of the name (binder kinds it does not read)."
 
 
 def check(prog: Program, tier: str) -> Result:
@@ -183,7 +183,8 @@ def check(prog: Program, tier: str) -> Result:
     _r18_13_census(prog, res)
     _r18_19(prog, res)
     _r18_20(prog, res)
-    res.floors.update({"R18.1": 6, "R18.2": 2, "R18.4": 1, "R18.5": 1, "R18.10": 3, "R18.11": 2, "R18.12": 1, "R18.13": 4, "R18.14": 2, "R18.15": 4, "R18.16": 1, "R18.17": 2, "R18.18": 1, "R18.19": 1, "R18.20": 1})
+    _r18_21(prog, res)
+    res.floors.update({"R18.1": 6, "R18.2": 2, "R18.4": 1, "R18.5": 1, "R18.10": 3, "R18.11": 2, "R18.12": 1, "R18.13": 5, "R18.14": 2, "R18.15": 4, "R18.16": 1, "R18.17": 2, "R18.18": 1, "R18.19": 1, "R18.20": 1, "R18.21": 3})
     res.analysed["importfrom_constructions"] = n
     return res
 
@@ -661,6 +662,35 @@ def _r18_13_census(prog: Program, res: Result) -> None:
                    "answered only when every mention of __all__ was one of the statements the model reads" if ok else
                    "the model answers `not exported` from the statements it understands and never asks whether there are others: with `__all__ += ['name']` in the module "
                    "the name is taken for not exported, the star import is expanded without it and the name is unbound")
+    # (a') the census counts what the model reads, WHERE the model reads it: the same templates, the same traversal.  A census that
+    # counts `__all__ = [..]` anywhere in the tree while the model reads it at module level only takes a conditional assignment for
+    # understood, and the model then answers from an empty filter.
+    def readers(f: Func):
+        out = set()
+        for c in prog.calls_in(f):
+            d_ = norm(c.func).split(".")[-1]
+            if d_ in ("walk", "filter_nodes") and len(c.args) >= 2:
+                tmpl = c.args[1]
+                text = norm(tmpl)
+                if isinstance(tmpl, ast.Name):
+                    vals = [v for _s, v in bindings(f).get(tmpl.id, []) if v is not None] or ([f.mod.globals[tmpl.id]] if tmpl.id in f.mod.globals else [])
+                    text = norm(vals[0]) if len(vals) == 1 else text
+                if "__all__" in text:
+                    where = "statements of the module" if norm(c.args[0]).endswith(".body") else "whole tree"
+                    out.add((re.sub(r"\s+", "", text), where))
+        return out
+    model = readers(tr)
+    for f in census:
+        mine = readers(f)
+        # the census also counts the plain mentions (ast.Name(id='__all__')): not a reader of the model
+        mine = {m_ for m_ in mine if "Assign(" in m_[0] or "Call(" in m_[0]}
+        theirs = {m_ for m_ in model if "Assign(" in m_[0] or "Call(" in m_[0]}
+        # the model may hold further templates for __all__ (fix_reimported_names has its own): compare by template text
+        wrong = sorted(w_ for t_, w_ in mine if (t_, w_) not in theirs and any(t_ == t2 for t2, _w2 in theirs))
+        res.decide(not wrong and bool(mine), "R18.13", f.loc(), f.fq, f"{f.node.name}() # counts the statements the export model reads, where it reads them",
+                   f"{len(mine)} readers, each with the traversal of the model" if not wrong and mine else
+                   "the census looks for a statement in another place than the model does (" + ", ".join(wrong or ["no reader found"]) + "): a conditional `__all__ = [..]` counts as "
+                   "understood, the model (module level only) has an empty filter and takes every public name for exported")
     # (b) the sibling predicate
     # the predicate is found the way R18.15 finds it: a one-argument repository call on the removed star import whose negative
     # outcome holds at the removal
@@ -763,6 +793,46 @@ def _r18_20(prog: Program, res: Result) -> None:
                                        "module level and is also a local of some function is dropped from the narrowed import")
     if n == 0:
         res.undecided("R18.20", fs.loc(), fs.fq, "names a star import may provide", "producer of the subtracted definitions not found")
+
+
+# ------------------------------------------------------------------------------------------------ R18.21
+def _r18_21(prog: Program, res: Result) -> None:
+    """`.module` of an ImportFrom names a module only together with `.level`: `from .json import loads` and `from json import loads`
+    have the same module text.  R18.1 follows the pair into constructed nodes and grouping dictionaries; this rule covers every
+    other place where the module text becomes part of an IDENTITY - a tuple or an f-string that is compared, hashed or used as a
+    key: it must mention the level of the same node (or the node is known to be absolute on the path: R18.7)."""
+    from ..pathcond import PathAnalysis, plain
+    n = 0
+    for fn in prog.funcs.values():
+        if fn.mod.name not in ("fixes", "tracing"):
+            continue
+        pa = None
+        for e in walk_own(fn.node):
+            if not isinstance(e, (ast.Tuple, ast.JoinedStr)) or isinstance(getattr(e, "ctx", None), ast.Store):
+                continue
+            if isinstance(parent(e), (ast.Tuple, ast.JoinedStr)):
+                continue
+            mods = [x for x in ast.walk(e) if isinstance(x, ast.Attribute) and x.attr == "module" and isinstance(x.value, ast.Name)
+                    and not isinstance(parent(x), ast.keyword)]
+            # a constructor call inside the tuple is R18.1's business
+            mods = [x for x in mods if not any(isinstance(a, ast.Call) and norm(a.func).startswith("ast.") for a in __import__("sa.model", fromlist=["ancestors"]).ancestors(x) if a is not e
+                                                and any(a is y for y in ast.walk(e)))]
+            if not mods:
+                continue
+            n += 1
+            who = mods[0].value.id
+            has_level = any(isinstance(x, ast.Attribute) and x.attr == "level" and isinstance(x.value, ast.Name) and x.value.id == who for x in ast.walk(e))
+            ok, why = has_level, f"the level of {who} is part of it"
+            if not ok:
+                pa = pa or PathAnalysis(prog, fn)
+                worlds = pa.worlds_at(e)
+                absolute = bool(worlds) and all(any(f[0] == "lit" and ((not f[2] and plain(f[1]) == f"{who}.level") or (f[2] and plain(f[1]).replace(" ", "") in (f"eq(0,{who}.level)", f"eq({who}.level,0)"))) for f in w.facts) for w in worlds)
+                ok, why = absolute, f"{who} is known to be an absolute import here"
+            res.decide(ok, "R18.21", fn.loc(e), fn.fq, f"{short(e, 70)} # the module of an import as part of an identity", why if ok else
+                       f"`{who}.module` identifies the origin without `{who}.level`: a relative import and an absolute import of the same module text count as the same origin "
+                       "(`from .json import loads` / `from json import loads`)")
+    if n == 0:
+        res.undecided("R18.21", "pyrefact/", "package", "identities built from the module of an import", "none found")
 
 
 # ------------------------------------------------------------------------------------------------ R18.18
